@@ -310,6 +310,7 @@ fn transports(v: &Verdicts, sessions: usize, rng: &mut Rng) -> (u64, BTreeSet<St
     let base = wait_counts(&live.dbs, &zero);
     let base: BTreeMap<String, usize> = base.iter().map(|(k, v)| (k.clone(), v.0)).collect();
     let mut i = 0;
+    let mut resets = 0u64;
     while (n as usize) < sessions {
         i += 1;
         let transport = ["tcp", "http", "ws"][i % 3];
@@ -370,7 +371,23 @@ fn transports(v: &Verdicts, sessions: usize, rng: &mut Rng) -> (u64, BTreeSet<St
                     during_ok = false;
                     during_detail = format!("while connected: model {:?} got {:?}", model, got);
                 }
-                drop(conns); // socket close
+                // socket close: an orderly one (everything read, FIN), or a reset: replies left unread in the receive buffer
+                // and SO_LINGER 0, so the server's read fails with ECONNRESET instead of seeing the end of the stream
+                for (k, mut c) in conns.into_iter().enumerate() {
+                    if (k + i) % 2 == 0 {
+                        drop(c);
+                    } else {
+                        c.send(b"get $connections\nkeys\nget $connections\n");
+                        std::thread::sleep(Duration::from_millis(2));
+                        use std::os::unix::io::AsRawFd;
+                        let lin = libc::linger { l_onoff: 1, l_linger: 0 };
+                        unsafe {
+                            libc::setsockopt(c.s.as_raw_fd(), libc::SOL_SOCKET, libc::SO_LINGER, &lin as *const _ as *const libc::c_void, std::mem::size_of::<libc::linger>() as libc::socklen_t);
+                        }
+                        resets += 1;
+                        drop(c);
+                    }
+                }
             }
             "ws" => {
                 let mut conns = vec![];
@@ -430,8 +447,11 @@ fn transports(v: &Verdicts, sessions: usize, rng: &mut Rng) -> (u64, BTreeSet<St
             return (n, shapes); // counters are off from here on
         }
     }
+    TCP_RESETS.store(resets, std::sync::atomic::Ordering::SeqCst);
     (n, shapes)
 }
+
+static TCP_RESETS: std::sync::atomic::AtomicU64 = std::sync::atomic::AtomicU64::new(0);
 
 pub fn run(tier: &str) -> i32 {
     quiet_panics();
@@ -485,7 +505,7 @@ pub fn run(tier: &str) -> i32 {
     let s = st.into_inner().unwrap();
     ev.evaluations = s.sequences + il_runs + tr_sessions;
     ev.distinct_nontrivial = (s.shapes.len() + il_nontrivial.len() + tr_shapes.len()) as u64;
-    ev.rule = format!("sequential: {} systematic + {} random sequences of connect / use-db (db token, wrong token, user token, unknown db; same db again, other db) / other commands / disconnect over 3 sessions x 2 databases, model checked after every event against Database.connections, the $connections key and a watcher's notifications; interleaved: {} token-passing schedules of two sessions (use-db, use-db, disconnect|stay) ; transports: {} sessions in bursts of 1-3 over real TCP (socket close), WebSocket (close frame and abrupt close) and HTTP (end of request), counts checked while connected and after the burst; distinct_nontrivial = distinct event-shape sequences (sequential) + distinct schedules in which both sessions touch one database + distinct transport burst shapes", systematic, n_random, il_runs, tr_sessions);
+    ev.rule = format!("sequential: {} systematic + {} random sequences of connect / use-db (db token, wrong token, user token, unknown db; same db again, other db) / other commands / disconnect over 3 sessions x 2 databases, model checked after every event against Database.connections, the $connections key and a watcher's notifications; interleaved: {} token-passing schedules of two sessions (use-db, use-db, disconnect|stay) ; transports: {} sessions in bursts of 1-3 over real TCP (orderly close, and connection reset with replies left unread), WebSocket (close frame and abrupt close) and HTTP (end of request), counts checked while connected and after the burst; distinct_nontrivial = distinct event-shape sequences (sequential) + distinct schedules in which both sessions touch one database + distinct transport burst shapes", systematic, n_random, il_runs, tr_sessions);
     ev.samples = s.samples.clone();
     ev.set("sequential_events", json!(s.events));
     ev.set("sequential_shapes", json!(s.shapes.len()));
@@ -493,6 +513,7 @@ pub fn run(tier: &str) -> i32 {
     ev.set("interleaved_distinct_schedules", json!(il_distinct.len()));
     ev.set("interleaved_schedules_sharing_a_database", json!(il_nontrivial.len()));
     ev.set("transport_sessions", json!(tr_sessions));
+    ev.set("tcp_sessions_ended_by_a_connection_reset", json!(TCP_RESETS.load(std::sync::atomic::Ordering::SeqCst)));
     ev.set("transport_burst_shapes", json!(tr_shapes.len()));
     ev.set("known_findings_seen", json!(v.known_seen()));
     ev.violations = v.violation_count();
